@@ -23,19 +23,31 @@ import framework as fw
 import objmodel as M
 
 NOT_CARRIED = [
-    "C16_final_config is NOT proved as a theorem over all histories: proved are (a) C16_final_config_partial -- the "
-    "material part of the tilde / e0 provenance depends on the table list and brdf_index only through the per-wall "
-    "resolution (overwritten tables, setter order vanish), (b) the concrete instance "
-    "Instances/ObjectExamples.final_config_instance (permuted + overwritten + re-sourced + re-baked history = "
-    "canonical history, by vm_compute); the statement for all histories rests on the model correspondence plus the "
-    "harness comparison of every history with the canonical history of its effective configuration",
+    "C16_final_config IS proved over all histories and all states (C16_final_config_history_independent, "
+    "C16_final_config_state_independent): two histories / states that agree on the configuration fields answer the "
+    "tail bake; init_source; exchange(recalculate) with the same classes up to the first failure and, on success, "
+    "with the same provenance of every receiver collection; no cached field enters.  NOT proved there: "
+    "'configuration equality' in that theorem is equality of the RAW brdf table list and brdf_index (plus geometry, "
+    "frequencies, direction lists, attenuation), not equality of the per-wall resolution; that only the per-wall "
+    "resolution enters the tilde / e0 provenance is the separate C16_final_config_partial (overwritten tables, "
+    "setter order vanish from wall_cfg), and the two are joined only on the concrete instance "
+    "Instances/ObjectExamples.final_config_instance (vm_compute) and by the harness comparison of every history "
+    "with the canonical history of its effective configuration (a stale table of another shape does make the raw "
+    "list matter: C16_final_config_refuted_stale_table)",
     "the configuration in force = the six geometry attributes, frequencies, air_attenuation, the two direction lists "
     "and brdf resolved through brdf_index; histories in which init_source_energy installed its default BRDF are "
     "refuted (C16_final_config_refuted_default_brdf, finding default_install_rebake); an overwritten table of another "
     "shape makes bake raise although the configuration in force is valid (C16_final_config_refuted_stale_table, "
     "finding stale_table_shape)",
-    "C16_idempotent is proved for bake_geometry, calculate_energy_exchange(recalculate=True) and "
-    "set_air_attenuation; for init_source_energy it is NOT proved (harness: repeat comparisons of all 25 attributes)",
+    "C16_idempotent is proved as Leibniz equality of all 25 attributes, for every state, for bake_geometry, "
+    "init_source_energy (C16_idempotent_init_source; holds also when the first call installed the default BRDF / "
+    "frequencies / attenuation), calculate_energy_exchange(recalculate=True) and set_air_attenuation; the whole tail "
+    "bake; init_source; exchange(recalculate) run twice ends in the same state as run once PROVIDED the direction "
+    "lists and the attenuation are set when the tail starts, i.e. init_source_energy installs no default "
+    "(C16_idempotent_tail); without materials that is refuted (C16_final_config_refuted_default_brdf), without an "
+    "attenuation only the provenance of form_factors_tilde differs (None vs the installed zeros, numerically the same "
+    "factor 1: C16_idempotent_tail_needs_attenuation).  NOT proved: idempotence of set_wall_brdf (it is not "
+    "idempotent: every call appends its table to the brdf list)",
     "calculate_energy_exchange WITHOUT recalculate keeps the old histogram but overwrites speed / resolution / "
     "duration (modelled faithfully; outside the property, which asks for recalculation; see C15 finding "
     "restore_refused_stale_cache)",
